@@ -198,6 +198,12 @@ def contracts(tier):
     maxn = 4 if tier == 'thorough' else 3
     shapes_ = forest_shapes(maxn)
     cs = list(writers.contracts(tier))
+    cs.append(Contract(
+        'C07/lemma/reread', [], run_reread_lemmas,
+        assumptions=['lemmas over the specification of the reader step '
+                     '(C08) only; induction over the positions of a string '
+                     'literal stated as base / step / conclusion; the fold '
+                     'over the pieces of a rendering is not machine-checked']))
     for mode in ('default', 'pretty', 'wrap', 'checking'):
 
         def run(eng, p, mode=mode):
@@ -238,3 +244,83 @@ def native_checks(tier):
                     'comment, #b, keyword) + 8 wide inputs forcing wraps',
                     timeout=3000),
     ]
+
+
+# ---------------------------------------------------------------------------
+# Re-reading a rendering: the step of the reader (as specified and proved for
+# the real scanner in C08) is *determined* by the piece that starts at the
+# current position.  If the text continues with a piece [a, b) that is a
+# token / comment / quoted symbol / string literal of the shape the renderers
+# emit (a leaf text followed by white space, a parenthesis or the end), then
+# every [a, hi) that satisfies the step's postcondition has hi == b.  With the
+# renderer contracts (the pieces written are the tokens of the input, atoms
+# separated) the reader therefore re-reads the same token sequence; the fold
+# over the pieces is the scanner's loop.  Pure lemmas over the specification
+# (no code involved); the string-literal case needs an induction over the
+# positions, given as base / step / conclusion.
+
+
+def run_reread_lemmas(eng, p):
+    T = z3.Array('T', z3.IntSort(), z3.IntSort())
+    a, b, hi, size, k = z3.Ints('a b hi size k')
+    i = z3.Int('i!l')
+    WS = [32, 9, 10, 13]
+    DEL = WS + [40, 41, 59]
+    NL = [10, 13]
+    BAR, Q = 124, 34
+
+    def isin(c, cs):
+        return z3.Or([c == x for x in cs])
+
+    def fa(lo, h, pred):
+        return z3.ForAll([i], z3.Implies(z3.And(lo <= i, i < h), pred(i)))
+
+    N = 'C07/lemma/reread'
+    # token
+    def tok(e):
+        return z3.And(a < e, e <= size,
+                      fa(a, e, lambda j: z3.Not(isin(T[j], DEL))),
+                      z3.Or(e == size, isin(T[e], DEL)))
+
+    p.oblige(f'{N}/token-piece-determines-the-step',
+             mk_bool(z3.Implies(z3.And(tok(b), tok(hi)), hi == b)))
+
+    def com(e):
+        return z3.And(a < e, e <= size,
+                      fa(a + 1, e - 1, lambda j: z3.Not(isin(T[j], NL))),
+                      z3.Or(z3.And(isin(T[e - 1], NL), e - 1 > a),
+                            e == size))
+
+    p.oblige(f'{N}/comment-piece-determines-the-step',
+             mk_bool(z3.Implies(z3.And(com(b), com(hi)), hi == b)))
+
+    def qsym(e):
+        return z3.And(e - 1 > a, e <= size, T[a] == BAR, T[e - 1] == BAR,
+                      fa(a + 1, e - 1, lambda j: T[j] != BAR))
+
+    p.oblige(f'{N}/quoted-symbol-piece-determines-the-step',
+             mk_bool(z3.Implies(z3.And(qsym(b), qsym(hi)), hi == b)))
+    # string literal: two readings (closing quote at e1 resp. e2, pairing
+    # arrays P1, P2) agree.  Induction on k: the pairings agree below k.
+    P1 = z3.Array('P1', z3.IntSort(), z3.IntSort())
+    P2 = z3.Array('P2', z3.IntSort(), z3.IntSort())
+    e1, e2 = z3.Ints('e1 e2')
+
+    def tiled(P, end):
+        return fa(a + 1, end, lambda j: z3.Implies(T[j] == Q, z3.Or(
+            z3.And(P[j] == 1, j + 1 < end, T[j + 1] == Q, P[j + 1] == 2),
+            z3.And(P[j] == 2, j - 1 > a, T[j - 1] == Q, P[j - 1] == 1))))
+
+    def reading(P, e):
+        return z3.And(e > a, e < size, T[a] == Q, T[e] == Q,
+                      z3.Or(e + 1 == size, T[e + 1] != Q), tiled(P, e))
+
+    def agree(n):
+        return fa(a + 1, n, lambda j: z3.Implies(T[j] == Q, P1[j] == P2[j]))
+
+    both = z3.And(reading(P1, e1), reading(P2, e2), e1 < e2)
+    p.oblige(f'{N}/string-literal/induction-base', mk_bool(agree(a + 1)))
+    p.oblige(f'{N}/string-literal/induction-step', mk_bool(z3.Implies(
+        z3.And(both, a + 1 <= k, k < e1, agree(k)), agree(k + 1))))
+    p.oblige(f'{N}/string-literal/two-readings-are-impossible',
+             mk_bool(z3.Implies(z3.And(both, agree(e1)), z3.BoolVal(False))))
